@@ -291,6 +291,7 @@ def _re_rule(pattern, repl, flags=re.M):
 
 
 RULES = {
+    "auto_const": (lambda t: (t, 0), "module-level constants mentioned by extracted bodies are copied verbatim (visibility widened to pub)"),
     "drop_comments": (_re_rule(r"^[ \t]*//[^\n]*\n", ""), "comments and doc comments carry no semantics"),
     "drop_trailing_comments": (_re_rule(r"[ \t]+//[^\n]*$", ""), "comments carry no semantics"),
     "drop_logging": (_del_macro_stmt(["trace", "debug", "info", "warn", "probe"]), "logging/probe statements have no effect on program state"),
@@ -493,6 +494,23 @@ def build(unit, repo):
                                "obligation_prefix": it.get("obligation", it.get("rename") or it["name"])})
         if g.get("header"):
             parts.append("}\n")
+    # module-level constants of the source files that the extracted bodies mention but the unit does not define
+    # (e.g. a constant introduced by a refactoring): pulled in verbatim so that the unit keeps compiling
+    text_so_far = re.sub(r"//[^\n]*", "", "".join(parts) + unit.get("client", ""))
+    auto = []
+    for rel, src in list(srcs.items()):
+        for cm in re.finditer(r"^(?:pub(?:\([a-z]+\))?\s+)?const\s+([A-Z][A-Z0-9_]*)\s*:[^;=]*=[^;]*;", src, re.M):
+            name = cm.group(1)
+            if re.search(r"\b%s\b" % name, text_so_far) and not re.search(r"\bconst\s+%s\b" % name, text_so_far):
+                auto.append((name, re.sub(r"^(?:pub(?:\([a-z]+\))?\s+)?const", "pub const", cm.group(0))))
+    if auto:
+        start_line = cur_line()
+        parts.append("// ---- module-level constants referenced by the extracted items (pulled in automatically) ----\n")
+        for name, ctext in auto:
+            hashes["const " + name] = hashlib.sha256(ctext.encode()).hexdigest()[:16]
+            parts.append(ctext + "\n")
+        fired["auto_const"] = len(auto)
+        item_lines.append({"item": "(auto constants)", "first": start_line, "last": cur_line() - 1, "obligation_prefix": "const"})
     cl_start = cur_line()
     parts.append(unit.get("client", ""))
     item_lines.append({"item": "(client lemmas)", "first": cl_start, "last": cur_line(), "obligation_prefix": "client"})
